@@ -1,7 +1,15 @@
 (* Props/C11.v -- Forward-mode (separable) and reverse-mode (pointwise) computations agree. *)
 From Coq Require Import List Arith Bool Lia.
-From JV Require Import Kit.Field Kit.Expr Model.M_operators Model.M_fwd Proofs.P_operators Proofs.P_fwd.
+From JV Require Import Kit.Field Kit.Expr Model.M_operators Model.M_fwd Proofs.P_operators Proofs.P_fwd Inst.I_fwd.
 Import ListNotations.
+
+(* regenerated from the source: _div_fwd / _laplacian_fwd scan over the d space axes (x.shape[1]),
+   step i uses the i-th one-hot tangent repeated over the batch rows -- once on component i for the
+   divergence, twice (jvp of jvp, same tangent) on component 0 for the Laplacian -- and sum the
+   per-axis results: exactly the model's laplacian_fwd / div_fwd; _get_grid is the ij-meshgrid of
+   the columns stacked on the last axis *)
+Lemma regenerated_fwd_ok : g_fwd_wiring = true.
+Proof. reflexivity. Qed.
 
 Section C11.
 Variable F : fld.
@@ -33,6 +41,7 @@ Theorem C11_grid_axes {A} (d0 : A) (cols : list (list A)) (idx : list nat) :
   nth (flat_index (map (@length A) cols) idx) (grid_flat cols) [] = map (fun p => nth (fst p) (snd p) d0) (combine idx cols).
 Proof. exact (grid_flat_nth d0 cols idx). Qed.
 
+Print Assumptions regenerated_fwd_ok.
 Print Assumptions C11_one_hot_jvp.
 Print Assumptions C11_laplacian_forward_is_reverse.
 Print Assumptions C11_divergence_forward_is_reverse.
